@@ -36,3 +36,39 @@ def ob_sql_delete(p0: bool, t0: int, p1: bool, t1: int, p2: bool, t2: int, g: Li
     if err:
         return err
     return "ok" if len(post) <= len(pre) else "ok-nothing-removed"
+
+
+@obligation(funcs=["web.ViewEventResource.on_get", "storage.db.DBStorage.get_event"], timeout=(120, 600),
+            bounds="HTTP /e/<id>: the event is viewed (or not) before the author's deletion, then requested again: the real "
+                   "ViewEventResource over the real DBStorage.get_event on the engine model")
+def ob_http_view_after_delete(viewed_before: bool, own: bool) -> str:
+    """
+    post: _.startswith("ok")
+    """
+    logging.disable(logging.CRITICAL)
+    import falcon
+    import types
+    from nostr_relay import web
+    st = S.make_store()
+    e0 = S.evj(0, False, 1, 10, [["t", "x"]])
+    S.drive(st.add_event(dict(e0)))
+    res = web.ViewEventResource(st)
+
+    def get():
+        resp = types.SimpleNamespace(media=None)
+        try:
+            S.drive(res.on_get(None, resp, e0["id"]))
+        except falcon.HTTPNotFound:
+            return None
+        return resp.media
+
+    if viewed_before and get() is None:
+        return "stored event not served by /e/<id>"
+    dele = S.evj(1, not own, 5, 20, [["e", e0["id"]]])
+    S.drive(st.add_event(dict(dele)))
+    served = get()
+    if own and served is not None:
+        return "/e/<id> still serves an event its author deleted (viewed before: %r)" % viewed_before
+    if not own and served is None:
+        return "/e/<id> lost an event after a foreign deletion request"
+    return "ok"
